@@ -294,7 +294,7 @@ def _fix_expr_parts(expr, V, U_offset, exp_function):
                 expr_parts.append(_generate_piecewise(ex, V, sp, Vmin, Vmax) if sp is not None else ex)
             return (None, None, None, Add(*expr_parts), is_piecewise)
 
-    elif isinstance(expr, Pow) and expr.args[1] == -1.0 and len(expr.args) == 2:  # 1/A
+    elif isinstance(expr, Pow) and expr.args[1] in (-1, -1.0):  # 1/A
         # Find singularities in A and adjust result to represent 1 / A
         Vmin, Vmax, sp, ex, has_piecewise = _fix_expr_parts(expr.args[0], V, U_offset, exp_function)
         has_piecewise = has_piecewise or Vmin is not None
